@@ -58,14 +58,14 @@ structure Item where
   id : Nat
   req : Bool
   ok : Bool
-  deriving Repr
+  deriving Repr, DecidableEq
 
 /-- what the peer can send at the top level of the stream -/
 inductive Unit
   | hdr (ok : Bool)
   | list (items : List Item)
   | proceed | failure | streamErr | tlsOther | foreign | space | malformed
-  deriving Repr
+  deriving Repr, DecidableEq
 
 inductive PItem
   | unit (u : Unit)
@@ -556,7 +556,7 @@ structure SniSess where
   remote : Nat
   s2s : Bool
   kind : Kind
-  deriving Repr
+  deriving Repr, DecidableEq
 
 def sessions : Option Name → List SniSess → List (Option Name)
   | _, [] => []
